@@ -416,8 +416,16 @@ class EscapeOfHEProducts(ExactSolver):
         corner0 = corners[0]
         corner1 = corners[1]
 
-        dist01 = math.hypot(corner0[0] - corner1[0], corner0[1] - corner1[1])
-        distp0 = math.hypot(corner0[0] - point[0], corner0[1] - point[1])
-        distp1 = math.hypot(corner1[0] - point[0], corner1[1] - point[1])
+        # Measure x in units of xmax and t in units of tmax, so that the
+        # test does not depend on the units chosen for length and time
+        sx = 1. / self.xmax
+        st = 1. / self.tmax
+
+        dist01 = math.hypot(sx * (corner0[0] - corner1[0]),
+                            st * (corner0[1] - corner1[1]))
+        distp0 = math.hypot(sx * (corner0[0] - point[0]),
+                            st * (corner0[1] - point[1]))
+        distp1 = math.hypot(sx * (corner1[0] - point[0]),
+                            st * (corner1[1] - point[1]))
 
         return abs(distp0 + distp1 - dist01) < tol
